@@ -872,7 +872,7 @@ def thread_cases(tier):
             yield case, 1
             if pair[0] in two_tasks and pair[1] in two_tasks and par == 2:
                 k += 1
-                if tier != "quick" or k % 3 == 1:
+                if (tier != "quick" and k % 2 == 1) or k % 3 == 1:
                     yield case, 2
     n3 = 0
     for tri in itertools.permutations(pool[:4], 3):
@@ -880,9 +880,9 @@ def thread_cases(tier):
             continue
         for par in (2, True):
             n3 += 1
-            # three tasks: every schedule with one preemption; two preemptions for every sixth case in thorough
+            # three tasks: every schedule with one preemption; two preemptions for every sixteenth case in thorough
             yield (tri, "none", base_opts(strategy="update", doc_sync="bykey-fn", recursive=True, exclude="list", parallel=par),
-                   "sync_projects"), (2 if tier != "quick" and n3 % 6 == 1 else 1)
+                   "sync_projects"), (2 if tier != "quick" and n3 % 16 == 1 else 1)
 
 
 def replay_case(payload, prop):
